@@ -656,10 +656,19 @@ fn raw12_case(s: &mut Session, rng: &mut Rng) {
     match items {
         Ok(items) => {
             s.case("r12.iter-limits", format!("r12.iter {take} | {} {} | {gt}", lim.max_char, lim.glyph_count), show_pairs(&items));
-            let within = items.iter().all(|(c, g)| *c < lim.max_char.max(1) && (g.to_u32() < lim.glyph_count || lim.glyph_count == 0));
-            s.oracle("cmap12-limited-iter-respects-limits", within || lim.glyph_count == 0 && items.is_empty(), || format!("Cmap12 {gt} limits {lim:?}"), || String::new());
+            // max_char is the last valid character (inclusive), glyph_count an exclusive bound
+            let within = items.iter().all(|(c, g)| *c <= lim.max_char && g.to_u32() < lim.glyph_count);
+            s.oracle("cmap12-limited-iter-respects-limits", within, || format!("Cmap12 {gt} limits {lim:?}"), || String::new());
+            // ascending output is only promised for ascending, disjoint groups (unlike Cmap4Iter,
+            // Cmap12Iter lets `range.end` slide backwards on overlapping groups; not part of C08)
+            let well_formed = gs.iter().all(|(a, b, _)| a <= b) && gs.windows(2).all(|w| w[0].1 < w[1].0);
             let asc = items.windows(2).all(|w| w[0].0 < w[1].0);
-            s.oracle("cmap12-iter-strictly-ascending", asc, || format!("Cmap12 {gt} limits {lim:?}"), || String::new());
+            if well_formed {
+                s.count("raw12:well-formed");
+                s.oracle("cmap12-iter-strictly-ascending", asc, || format!("Cmap12 {gt} limits {lim:?}"), || String::new());
+            } else if !asc {
+                s.count("raw12:malformed-groups-iterate-non-ascending");
+            }
         }
         Err(m) => s.oracle("reader-does-not-panic:iter12", false, || format!("Cmap12 {gt}"), || m),
     }
